@@ -428,11 +428,17 @@ def forward_signatures(func, calls, args, kwargs, sig):
         except UnresolvableName:
             raise UnknownForwards
         fwdargsvals = [rn(arg) for arg in fwdargs]
-        fwdargsvals.extend(rn(fwdvarargs))
         fwdkwargsvals = dict((n, rn(arg)) for n, arg in fwdkwargs.items())
-        fwdkwargsvals.update(rn(fwdvarkwargs))
+        try:
+            fwdargsvals.extend(rn(fwdvarargs))
+            fwdkwargsvals.update(rn(fwdvarkwargs))
+        except (TypeError, ValueError):
+            # a known value that cannot be unpacked with * or **
+            raise UnknownForwards
         using_partial = wrapped_func == functools.partial
         if using_partial:
+            if not fwdargsvals:
+                raise UnknownForwards
             wrapped_func = fwdargsvals.pop(0)
         try:
             wrapped_sig = forged_signature(
